@@ -200,10 +200,12 @@ Fixpoint r_expr (e : E) : string :=
                    end) st ++ "]," ++ r_expr r ++ ")"
   end.
 
-(* one case: the folded expression, then per event the outcome of the unfolded and of the folded
-   expression:  F:<e'>|<u1>;<f1>|<u2>;<f2>...   (FP = the folder panics; then <fi> is "-") *)
+(* one case: is the expression in C10's known-finding class (identity_fires), the folded
+   expression, then per event the outcome of the unfolded and of the folded expression:
+   K<0|1>|F:<e'>|<u1>;<f1>|<u2>;<f2>...   (FP = the folder panics; then <fi> is "-") *)
 Definition run_case (e : E) (events : list (event b64ops)) : string :=
   let fe := fold64 e in
+  "K" ++ str_of_bool (identity_fires b64ops e) ++ "|" ++
   (match fe with Some e' => "F:" ++ r_expr e' | None => "FP" end) ++
   String.concat "" (map (fun env => "|" ++ r_outcome (eval64 env e) ++ ";" ++
                              match fe with Some e' => r_outcome (eval64 env e') | None => "-" end) events).
